@@ -230,6 +230,15 @@ def typhon_frame(tb):
 
 def exception_signature(prop_id, suite, exc):
     fs = typhon_frame(exc.__traceback__)
+    seen = set()
+    link = exc
+    while fs is None and link is not None and id(link) not in seen:
+        # e.g. "RuntimeError: generator raised StopIteration": the typhon
+        # frame is in the traceback of the cause
+        seen.add(id(link))
+        link = link.__cause__ or link.__context__
+        if link is not None:
+            fs = typhon_frame(link.__traceback__)
     if fs is None:
         return None
     rel = os.path.relpath(os.path.realpath(fs.filename),
